@@ -5,17 +5,14 @@ import (
 	"go/types"
 )
 
-// unsafeCast reinterprets an unsafe.Pointer as *T. Only identity-like casts
-// are supported generically; specific reinterpretations are intrinsics on the
-// functions that perform them.
+// unsafeCast: reinterpreting casts are not modelled generically; the functions
+// that perform them are intrinsics (see structLE below). Reaching one that is
+// not is an engine error, never silently executed.
 func (m *machine) unsafeCast(up unsafePtr, tdst types.Type) value {
-	if p, ok := up.v.(*value); ok {
-		if p == nil {
-			return (*value)(nil)
-		}
-		return p
+	if p, ok := up.v.(*value); ok && p == nil {
+		return (*value)(nil)
 	}
-	panic(engineError{fmt.Sprintf("unsupported unsafe.Pointer cast from %v to %v", up.t, tdst)})
+	panic(engineError{fmt.Sprintf("unmodelled unsafe.Pointer cast from %v to %v", up.t, tdst)})
 }
 
 func (m *machine) ptrToInt(up unsafePtr) value {
@@ -24,3 +21,153 @@ func (m *machine) ptrToInt(up unsafePtr) value {
 	}
 	panic(engineError{"uintptr(unsafe.Pointer) of non-nil pointer"})
 }
+
+var gcSizes = types.SizesFor("gc", "amd64")
+
+// structToLE lays out a struct of integer fields as little-endian bytes (gc/amd64 layout).
+func (m *machine) structToLE(s structure, st *types.Struct) []value {
+	n := int(gcSizes.Sizeof(st))
+	out := make([]value, n)
+	for i := range out {
+		out[i] = uint64(0)
+	}
+	var fields []*types.Var
+	for i := 0; i < st.NumFields(); i++ {
+		fields = append(fields, st.Field(i))
+	}
+	offs := gcSizes.Offsetsof(fields)
+	for i, f := range fields {
+		w, _, ok := intInfo(f.Type())
+		if !ok {
+			panic(engineError{"structToLE: non-integer field " + f.Name()})
+		}
+		for b := 0; b < w/8; b++ {
+			switch v := s[i].(type) {
+			case uint64:
+				out[int(offs[i])+b] = (v >> uint(8*b)) & 0xff
+			case *Term:
+				out[int(offs[i])+b] = fromTerm(m.ts.Extract(v, 8*b+7, 8*b))
+			}
+		}
+	}
+	return out
+}
+
+// leToStruct is the inverse of structToLE.
+func (m *machine) leToStruct(b []value, st *types.Struct) structure {
+	var fields []*types.Var
+	for i := 0; i < st.NumFields(); i++ {
+		fields = append(fields, st.Field(i))
+	}
+	offs := gcSizes.Offsetsof(fields)
+	out := make(structure, len(fields))
+	for i, f := range fields {
+		w, _, ok := intInfo(f.Type())
+		if !ok {
+			panic(engineError{"leToStruct: non-integer field " + f.Name()})
+		}
+		out[i] = m.bytesToIntLE(b[offs[i]:int(offs[i])+w/8])
+	}
+	return out
+}
+
+func (m *machine) bytesToIntLE(b []value) value {
+	allc := true
+	for _, x := range b {
+		if _, ok := x.(uint64); !ok {
+			allc = false
+		}
+	}
+	if allc {
+		var v uint64
+		for i, x := range b {
+			v |= x.(uint64) << uint(8*i)
+		}
+		return v
+	}
+	var acc *Term
+	for i := len(b) - 1; i >= 0; i-- {
+		t := m.toTerm(b[i], 8)
+		if acc == nil {
+			acc = t
+		} else {
+			acc = m.ts.Concat(acc, t)
+		}
+	}
+	return fromTerm(acc)
+}
+
+func (m *machine) intToBytesLE(v value, n int) []value {
+	out := make([]value, n)
+	for b := 0; b < n; b++ {
+		switch x := v.(type) {
+		case uint64:
+			out[b] = (x >> uint(8*b)) & 0xff
+		case *Term:
+			out[b] = fromTerm(m.ts.Extract(x, 8*b+7, 8*b))
+		}
+	}
+	return out
+}
+
+func init() {
+	bp := "github.com/dgraph-io/badger/v4"
+	registerLate(func() {
+		intrinsics["("+bp+".valuePointer).Encode"] = func(fr *frame, a []value) value {
+			st := fr.fn.Signature.Recv().Type().Underlying().(*types.Struct)
+			return fr.m.structToLE(a[0].(structure), st)
+		}
+		intrinsics["(*"+bp+".valuePointer).Decode"] = func(fr *frame, a []value) value {
+			st := deref(fr.fn.Signature.Recv().Type()).Underlying().(*types.Struct)
+			b := a[1].([]value)
+			n := int(gcSizes.Sizeof(st))
+			if len(b) < n {
+				fr.m.runtimePanic(fmt.Sprintf("slice bounds out of range [:%d] with capacity %d", n, len(b)))
+			}
+			store(a[0].(*value), fr.m.leToStruct(b[:n], st))
+			return nil
+		}
+		// table block-entry header {overlap, diff uint16}
+		intrinsics["("+bp+"/table.header).Encode"] = func(fr *frame, a []value) value {
+			st := fr.fn.Signature.Recv().Type().Underlying().(*types.Struct)
+			return fr.m.structToLE(a[0].(structure), st)
+		}
+		intrinsics["(*"+bp+"/table.header).Decode"] = func(fr *frame, a []value) value {
+			st := deref(fr.fn.Signature.Recv().Type()).Underlying().(*types.Struct)
+			b := a[1].([]value)
+			n := int(gcSizes.Sizeof(st))
+			if len(b) < n {
+				fr.m.runtimePanic(fmt.Sprintf("slice bounds out of range [:%d] with capacity %d", n, len(b)))
+			}
+			store(a[0].(*value), fr.m.leToStruct(b[:n], st))
+			return nil
+		}
+		intrinsics[bp+"/y.U32SliceToBytes"] = func(fr *frame, a []value) value {
+			in := a[0].([]value)
+			if len(in) == 0 {
+				return []value(nil)
+			}
+			var out []value
+			for _, x := range in {
+				out = append(out, fr.m.intToBytesLE(x, 4)...)
+			}
+			return out
+		}
+		intrinsics[bp+"/y.BytesToU32Slice"] = func(fr *frame, a []value) value {
+			in := a[0].([]value)
+			if len(in) == 0 {
+				return []value(nil)
+			}
+			out := make([]value, len(in)/4)
+			for i := range out {
+				out[i] = fr.m.bytesToIntLE(in[4*i : 4*i+4])
+			}
+			fr.m.E.noteCut("y.BytesToU32Slice returns a copy, not an aliasing view")
+			return out
+		}
+	})
+}
+
+var lateInits []func()
+
+func registerLate(f func()) { lateInits = append(lateInits, f) }
